@@ -59,3 +59,199 @@ Section GaussProofs.
     apply map_add_seq.
   Qed.
 End GaussProofs.
+
+(* ---------------------------------------------------------------------------------- *)
+Lemma sorted_le_seq : forall len a, sorted_le (seq a len) = true.
+Proof.
+  induction len as [|l IH]; intro a; [reflexivity|].
+  simpl. destruct l as [|l']; [reflexivity|].
+  change (seq (S a) (S l')) with (S a :: seq (S (S a)) l') in *.
+  apply andb_true_iff. split; [apply Nat.leb_le; lia|]. apply (IH (S a)).
+Qed.
+
+Section GaussEntries.
+  Variable K : Type.
+  Variable k0 : K.
+  Variables (mu : nat -> K) (cov : nat -> nat -> K) (n : nat).
+
+  Lemma sel_mu_nth : forall ind a, a < length ind -> vnth K k0 (sel_mu K mu ind) a = mu (nth a ind 0).
+  Proof. intros. unfold vnth, sel_mu. apply nth_map_in. assumption. Qed.
+
+  Lemma sel_cov_nth : forall ind a b, a < length ind -> b < length ind ->
+    mnth K k0 (sel_cov K cov ind) a b = cov (nth a ind 0) (nth b ind 0).
+  Proof.
+    intros ind a b Ha Hb. unfold mnth, sel_cov.
+    rewrite (nth_map_in _ _ (fun r => map (cov r) ind) ind a [] 0) by assumption.
+    apply nth_map_in. assumption.
+  Qed.
+
+  (* what a successful call returns, and when *)
+  Lemma reduced_gaussian_ok : forall modes rm rc,
+    reduced_gaussian K mu cov n modes = Ok (rm, rc) ->
+    rm = sel_mu K mu (gidx n modes) /\ rc = sel_cov K cov (gidx n modes)
+    /\ sorted_le modes = true /\ (forall m, In m modes -> m < n).
+  Proof.
+    intros modes rm rc H. unfold reduced_gaussian in H.
+    destruct (list_eqb modes (seq 0 n)) eqn:E.
+    - apply list_eqb_eq in E. subst modes. inversion H; subst. rewrite gidx_full.
+      repeat split; try reflexivity.
+      + apply sorted_le_seq.
+      + intros m Hm. apply in_seq in Hm. lia.
+    - destruct (sorted_le modes) eqn:Es; simpl in H; [|discriminate].
+      destruct (n <? length modes); [discriminate|].
+      destruct (existsb (fun m => n <=? m) modes) eqn:Ex; [discriminate|].
+      inversion H; subst. repeat split; try reflexivity.
+      apply existsb_ge_false. assumption.
+  Qed.
+
+  (* every entry of the answer is the entry of exactly the requested mode, in the requested order *)
+  Lemma reduced_gaussian_entries : forall modes rm rc,
+    reduced_gaussian K mu cov n modes = Ok (rm, rc) ->
+    let k := length modes in
+    length rm = 2 * k /\ length rc = 2 * k /\
+    forall i, i < k ->
+      vnth K k0 rm i = mu (nth i modes 0) /\
+      vnth K k0 rm (k + i) = mu (nth i modes 0 + n) /\
+      forall j, j < k ->
+        mnth K k0 rc i j = cov (nth i modes 0) (nth j modes 0) /\
+        mnth K k0 rc i (k + j) = cov (nth i modes 0) (nth j modes 0 + n) /\
+        mnth K k0 rc (k + i) j = cov (nth i modes 0 + n) (nth j modes 0) /\
+        mnth K k0 rc (k + i) (k + j) = cov (nth i modes 0 + n) (nth j modes 0 + n).
+  Proof.
+    intros modes rm rc H k.
+    destruct (reduced_gaussian_ok _ _ _ H) as (Hm & Hc & _ & _). subst rm rc.
+    assert (L : length (gidx n modes) = 2 * k) by apply gidx_length.
+    split; [unfold sel_mu; rewrite map_length; exact L|].
+    split; [unfold sel_cov; rewrite map_length; exact L|].
+    intros i Hi. fold k in L.
+    split; [rewrite sel_mu_nth by lia; rewrite gidx_nth_lo by assumption; reflexivity|].
+    split; [rewrite sel_mu_nth by lia; unfold k; rewrite gidx_nth_hi by assumption; reflexivity|].
+    intros j Hj.
+    repeat split; rewrite sel_cov_nth by lia; unfold k;
+      rewrite ?gidx_nth_hi, ?gidx_nth_lo by assumption; reflexivity.
+  Qed.
+
+  (* it never answers for a list that is not in ascending order, and never silently re-orders *)
+  Lemma reduced_gaussian_unsorted : forall modes,
+    sorted_le modes = false -> reduced_gaussian K mu cov n modes = ValueErr.
+  Proof.
+    intros modes Hs. unfold reduced_gaussian.
+    destruct (list_eqb modes (seq 0 n)) eqn:E.
+    - apply list_eqb_eq in E. subst. rewrite sorted_le_seq in Hs. discriminate.
+    - rewrite Hs. reflexivity.
+  Qed.
+
+  (* the check `modes != sorted(modes)` does not reject duplicates although the message says so *)
+  Lemma reduced_gaussian_accepts_duplicates : forall m, S m < n ->
+    exists r, reduced_gaussian K mu cov n [m; m] = Ok r.
+  Proof.
+    intros m Hm. unfold reduced_gaussian.
+    destruct (list_eqb [m; m] (seq 0 n)) eqn:E.
+    - eexists; reflexivity.
+    - simpl. rewrite Nat.leb_refl. simpl.
+      destruct n as [|[|n']]; try lia.
+      replace (S (S n') <? 2) with false by (symmetry; apply Nat.ltb_ge; lia).
+      replace (S (S n') <=? m) with false by (symmetry; apply Nat.leb_gt; lia).
+      simpl. eexists; reflexivity.
+  Qed.
+
+  Lemma reduced_gaussian_single : forall k, k < n ->
+    reduced_gaussian K mu cov n [k] = Ok (sel_mu K mu [k; k + n], sel_cov K cov [k; k + n]).
+  Proof.
+    intros k Hk. unfold reduced_gaussian.
+    destruct (list_eqb [k] (seq 0 n)) eqn:E.
+    - apply list_eqb_eq in E. destruct n as [|[|n']]; simpl in E; try discriminate.
+      inversion E; subst. reflexivity.
+    - simpl. replace (n <? 1) with false by (symmetry; apply Nat.ltb_ge; lia).
+      replace (n <=? k) with false by (symmetry; apply Nat.leb_gt; lia). reflexivity.
+  Qed.
+
+  Lemma displacement_entries : forall kmul is2h modes r,
+    displacement K kmul mu n is2h modes = Ok r ->
+    length r = length modes /\
+    forall i, i < length modes ->
+      nth i r (k0, k0) = (kmul (mu (nth i modes 0)) is2h, kmul (mu (nth i modes 0 + n)) is2h).
+  Proof.
+    intros kmul is2h modes r H. unfold displacement in H.
+    destruct (existsb (fun m => n <=? m) modes); [discriminate|]. inversion H; subst.
+    split; [apply map_length|]. intros i Hi.
+    rewrite (nth_map_in _ _ _ modes i (k0, k0) 0) by assumption. reflexivity.
+  Qed.
+End GaussEntries.
+
+(* ---------------------------------------------------------------------------------- *)
+(* cross-method identities over an arbitrary field *)
+Section GaussField.
+  Variable K : Type.
+  Variables (k0 k1 : K) (kadd kmul ksub : K -> K -> K) (kopp : K -> K) (kdiv : K -> K -> K) (kinv : K -> K).
+  Hypothesis Kfield : field_theory k0 k1 kadd kmul ksub kopp kdiv kinv eq.
+  Add Field Kf : Kfield.
+  Local Notation "a + b" := (kadd a b).
+  Local Notation "a * b" := (kmul a b).
+  Local Notation "a - b" := (ksub a b).
+  Local Notation "a / b" := (kdiv a b).
+  Local Notation two := (kadd k1 k1).
+
+  Variables (mu : nat -> K) (cov : nat -> nat -> K) (n : nat).
+
+  (* mean_photon(k) is a function of exactly mode k's entries *)
+  Lemma mean_photon_value : forall hbar k, k < n ->
+    exists var,
+    mean_photon K k0 k1 kadd kmul ksub kdiv mu cov n hbar k =
+      Ok (((cov k k + cov (k + n)%nat (k + n)%nat) + (mu k * mu k + mu (k + n)%nat * mu (k + n)%nat)) / (two * hbar) - k1 / two, var).
+  Proof.
+    intros hbar k Hk. unfold mean_photon. rewrite reduced_gaussian_single by assumption.
+    eexists. reflexivity.
+  Qed.
+
+  (* C16_gauss_photon: on the data GaussianBackend.state() hands over, mean_photon(k) = N_kk + |alpha_k|^2 *)
+  Lemma gauss_photon : forall (hbar hb2 s nr mr ar ai : K) k,
+    k < n -> hbar <> k0 -> two <> k0 ->
+    hb2 * two = hbar -> s * s = hb2 ->
+    mu k = bd_x K k1 kadd kmul s ar -> mu (k + n)%nat = bd_p K k1 kadd kmul s ai ->
+    cov k k = bd_vxx K k1 kadd kmul hb2 nr mr ->
+    cov (k + n)%nat (k + n)%nat = bd_vpp K k1 kadd kmul ksub hb2 nr mr ->
+    exists var, mean_photon K k0 k1 kadd kmul ksub kdiv mu cov n hbar k = Ok (nr + (ar * ar + ai * ai), var).
+  Proof.
+    intros hbar hb2 s nr mr ar ai k Hk Hh H2 Hhb Hs Hx Hp Hxx Hpp.
+    destruct (mean_photon_value hbar k Hk) as [var Hv]. exists var. rewrite Hv. f_equal. f_equal.
+    rewrite Hx, Hp, Hxx, Hpp. unfold bd_x, bd_p, bd_vxx, bd_vpp. subst hbar.
+    assert (Hhb2 : hb2 <> k0).
+    { intro Z. apply Hh. rewrite Z. ring. }
+    transitivity (((((nr + nr) + (mr + mr) + k1) + ((nr + nr) - (mr + mr) + k1)) * hb2
+                   + (two * two) * (ar * ar + ai * ai) * (s * s)) / (two * (hb2 * two)) - k1 / two).
+    { field. split; assumption. }
+    rewrite Hs. field. split; assumption.
+  Qed.
+
+  (* quadrature moments at two orthogonal angles determine the mean photon number: the three
+     methods look at the same entries *)
+  Lemma quad_photon_consistent : forall hbar c s k m1 v1 m2 v2 mp vp,
+    k < n -> c * c + s * s = k1 -> hbar <> k0 -> two <> k0 ->
+    quad_expectation K k0 kadd kmul mu cov n c s k = Ok (m1, v1) ->
+    quad_expectation K k0 kadd kmul mu cov n (kopp s) c k = Ok (m2, v2) ->
+    mean_photon K k0 k1 kadd kmul ksub kdiv mu cov n hbar k = Ok (mp, vp) ->
+    mp = ((v1 + v2) + (m1 * m1 + m2 * m2)) / (two * hbar) - k1 / two.
+  Proof.
+    intros hbar c s k m1 v1 m2 v2 mp vp Hk Hcs Hh H2 Q1 Q2 MP.
+    unfold quad_expectation in Q1, Q2. unfold mean_photon in MP.
+    rewrite reduced_gaussian_single in Q1, Q2, MP by assumption.
+    inversion Q1 as [[A1 A2]]; inversion Q2 as [[B1 B2]]; inversion MP as [[C1 C2]]. clear Q1 Q2 MP C2. subst m1 v1 m2 v2 mp.
+    unfold vnth, mnth, sel_mu, sel_cov. simpl.
+    set (x := mu k). set (p := mu (k + n)%nat).
+    set (a := cov k k). set (b := cov k (k + n)%nat). set (b' := cov (k + n)%nat k). set (d := cov (k + n)%nat (k + n)%nat).
+    assert (E1 : ((c * a + s * b') * c + (c * b + s * d) * s) + (((kopp s) * a + c * b') * (kopp s) + ((kopp s) * b + c * d) * c)
+                 = (c * c + s * s) * (a + d)) by ring.
+    assert (E2 : (c * x + s * p) * (c * x + s * p) + ((kopp s) * x + c * p) * ((kopp s) * x + c * p)
+                 = (c * c + s * s) * (x * x + p * p)) by ring.
+    rewrite E1, E2, Hcs. field. split; assumption.
+  Qed.
+
+  (* parity_expectation as coded does not look at WHICH modes were requested *)
+  Lemma parity_coded_ignores_modes : forall G hb2 modes1 modes2,
+    length modes1 = length modes2 -> has_dup modes1 = false -> has_dup modes2 = false ->
+    parity_coded K k1 kmul mu cov n G hb2 modes1 = parity_coded K k1 kmul mu cov n G hb2 modes2.
+  Proof.
+    intros G hb2 m1 m2 HL H1 H2. unfold parity_coded. rewrite H1, H2, HL. reflexivity.
+  Qed.
+End GaussField.
